@@ -402,7 +402,11 @@ class Reproduce(Stream):
         # upgrade
         up = r["upgrade"]
         rel = GL.norm(case["release"])
-        if up["outcome"] == "ok":
+        # an upgrade run that wanders into one of the solver's recorded defect regions (or leaves something unsolved) is
+        # judged by C01/C02/C09, not here
+        solver_region_ok = r["run4"]["region"] in ("clean", "walk-back") and \
+            (up["outcome"] != "ok" or all(k in up["pins"] for k in up["reqs_on"] if not k.endswith("_txt")))
+        if up["outcome"] == "ok" and solver_region_ok:
             old = {k: v["version"] for k, v in r["pins1"].items()}
             new = {k: v["version"] for k, v in up["pins"].items()}
             unjust = {}
